@@ -71,9 +71,14 @@ def _mixture(d, ctx, kind, **kw):
     if mm.ill_conditioned(m1, case):
         raise Borderline('fit sits on a numerical guard')
     m2 = ctx.lib(mm.fit, scaled, clause='scaled-input-raises')
+    # (cBMM: everything downstream of the Bingham eigenvalues - weights of the
+    # second iteration included - inherits the termination tolerance of the
+    # iterative solver, two fits on inputs that differ by rounding agree to
+    # about 1e-6)
     mm.compare_params(mm.params(m1, case), mm.params(m2, scaled),
-                      'fit-depends-on-magnitude', rtol=1e-7, atol=1e-9,
-                      kind=kind)
+                      'fit-depends-on-magnitude',
+                      rtol=1e-5 if kind == 'cbmm' else 1e-7,
+                      atol=1e-6 if kind == 'cbmm' else 1e-9, kind=kind)
     # predict of one model on both inputs, and both models on their input
     p11 = ctx.lib(mm.predict, m1, case)
     p12 = ctx.lib(mm.predict, m1, scaled)
